@@ -1,4 +1,4 @@
-\* thorough: 1..3 objects of 8 kinds (real, name, hex behave like int, int, str and are covered with 1..2 objects by the quick configuration)
+\* thorough: 1..3 objects of 8 kinds (real, name, hex, kw, arr are covered with 1..2 objects by the quick configuration)
 SPECIFICATION Spec
 CONSTANTS Kinds <- MostKinds
   MaxObjs = 3
@@ -6,5 +6,6 @@ CONSTANTS Kinds <- MostKinds
   Damages <- AllDamages
   EOF_IS_BROKEN = TRUE
   TRIM_TWICE = FALSE
+  USED_HOISTED = FALSE
 INVARIANTS TypeOK PropertyHolds StepsAgree DamageHarmless
 CHECK_DEADLOCK FALSE
